@@ -65,6 +65,19 @@ mut("m19a", "C19", TCP, "        async with self.sender_lock:\n            logge
 mut("m19b", "C19", CTCP, "        async with self.sender_lock:\n            logger.debug(\"TCP: sending data: %s\", data)\n            self.writer.write(data)\n            await self.writer.drain()", "        await self.writer.drain()\n        self.writer.write(data)", "client connection: drain-before-write without the lock", [])
 mut("m20a", "C20", BASE, "        if getattr(self, \"value\", None) is not None:\n            res[\"_value\"] = str(self.value)\n\n        if hasattr(self, \"children\"):", "        if hasattr(self, \"children\"):", "message-level text value ignored by ==", [])
 
+# --- second hand-written wave: one change per DIMENSION added after round 5 (DESIGN 10a, wave S5), none of them a
+# variation of a seeded change
+mut("m07c", "C07", DRV, "                if msg.name in self._vectors:\n                    v = self._vectors[msg.name]\n                    self.send_message(v.to_def_message())",
+    "                if msg.name in self._vectors:\n                    cache = self.__dict__.setdefault(\"_def_cache\", {})\n                    if msg.name not in cache:\n                        cache[msg.name] = self._vectors[msg.name].to_def_message()\n                    self.send_message(cache[msg.name])", "named request answered from a cache of definitions that is never invalidated (primed histories)", ["C01"])
+mut("m04c", "C04", RT, "            for device in self.devices:\n                if not device == sender and device.accepts(message.device):\n                    device.message_from_client(message)",
+    "            cache = self.__dict__.setdefault(\"_accept_cache\", {})\n            if message.device not in cache:\n                cache[message.device] = [d for d in self.devices if d.accepts(message.device)]\n            for device in cache[message.device]:\n                if not device == sender:\n                    device.message_from_client(message)", "accepting devices cached per device name, not invalidated when a device registers (primed histories)", ["C05"])
+mut("m02e", "C02", CTCP, "        self.buffer = Buffer()\n        if for_blobs:\n            self.buffer.max_buffer_size_before_frontal_cleanup = None",
+    "        self.buffer = self.shared_buffers.setdefault(bool(for_blobs) and False, Buffer())\n        if for_blobs:\n            self.buffer.max_buffer_size_before_frontal_cleanup = None\n    shared_buffers: dict = {}\n\n    def _unused(self):\n        pass", "client connections of one process share one receive buffer (two connections interleaved)", ["C01", "C08"])
+mut("m09b", "C09", EL, "        if not e.prevent_default:\n            self.value = value", "        if not e.prevent_default:\n            self.value = value\n        elif hasattr(self._vector, \"apply_rule\"):\n            self._vector.apply_rule(self, value)", "a deferred switch write still releases the other switches (handler modes)", ["C14"])
+mut("m19c", "C19", TCP, "    def message_from_device(self, message: IndiMessage):\n        data = message.to_string()\n        asyncio.get_running_loop().create_task(self.send(data))",
+    "    def message_from_device(self, message: IndiMessage):\n        data = message.to_string()\n        self.backlog = getattr(self, \"backlog\", 0) + 1\n        if self.backlog > 1000 and self.writer.transport.is_closing() is False and self.sender_lock.locked():\n            return\n        asyncio.get_running_loop().create_task(self.send(data))", "messages silently dropped for a connection with a deep backlog (deep-backlog dimension: the stalled connection's own order)", [])
+
+
 
 def materialise(m):
     d = os.path.join(ROOT, "selftest", "mutants", m["id"])
